@@ -42,7 +42,8 @@ def check_design(ctx, scenset, invariants, sanity):
     ctx.coverage.setdefault('m1', []).append({'scenset': scenset, 'distinct': r.distinct, 'generated': r.generated,
                                               'invariants': list(invariants), 'actions_never_enabled': dead})
     for dev, inv in sanity:
-        r2 = m1(ctx, scenset, [inv], deviations=[dev], workers=4)
+        # the deviation must break its clause already on the smallest scenario family
+        r2 = m1(ctx, 'wsgitiny' if scenset.startswith('wsgi') else scenset, [inv], deviations=[dev], workers=4)
         if r2.violated != inv:
             raise tlc.TlcError('non-vacuity: deviation %s does not violate %s (got %s)' % (dev, inv, r2.violated))
         ctx.coverage.setdefault('nonvacuity', []).append('%s breaks %s' % (dev, inv))
